@@ -352,7 +352,7 @@ func init() {
 		ID:         "C16",
 		Anchors:    []string{"router.go:serveContext", "group.go:ServeHTTP", "options.go:WithRecovery"},
 		Level:      "fault_enumeration",
-		Cases:      func(t string) int { return map[string]int{"quick": 48, "thorough": 1600}[t] },
+		Cases:      func(t string) int { return map[string]int{"quick": 1000, "thorough": 40000}[t] },
 		Run:        runC16,
 		Exhaustive: true,
 		Rule: "every case enumerates the complete product: 16 panic sites (route handler per method, automatic HEAD, OPTIONS, 405, 404, TRACE, each middleware layer Use/prefix/registration before and after next, CallFunc, group not-found, CallFunc for group not-found) x 5 panic values (string, error, struct, genuine runtime.Error, http.ErrAbortHandler) x 3 containers (Router, Group+Add-ed router with its own recovery, Group.New router inheriting the group's option) x recovery on/off; after every fault a normal request and a 404 are checked; then a random sequence of 60 faulty/normal requests; " +
